@@ -275,7 +275,22 @@ def _gen_onion(repo):
     port_pre, port_mid = _ports(fn.body[i])
     flags, flags_pre, flags_sep = _flags(fn.body[i + 1:i + 7])
     client_pre, client_mid = _clients(fn.body[i + 7])
-    q = fn.body[i + 8]
+    # optional: if '\r' in cmd or '\n' in cmd: raise ValueError  (just before the command is queued)
+    cmd_forbidden = ''
+    j = i + 8
+    lb = fn.body[j]
+    if isinstance(lb, ast.If):
+        need(not lb.orelse and len(lb.body) == 1 and isinstance(lb.body[0], ast.Raise)
+             and 'ValueError' in ast.dump(lb.body[0]), "command line break check")
+        tests = lb.test.values if isinstance(lb.test, ast.BoolOp) and isinstance(lb.test.op, ast.Or) else [lb.test]
+        for t in tests:
+            need(isinstance(t, ast.Compare) and len(t.ops) == 1 and isinstance(t.ops[0], ast.In)
+                 and _name(t.comparators[0], 'cmd'), "command line break test")
+            c = _const_str(t.left)
+            need(len(c) == 1, "command line break test on one character")
+            cmd_forbidden += c
+        j += 1
+    q = fn.body[j]
     need(isinstance(q, ast.Assign) and isinstance(q.value, ast.Yield) and isinstance(q.value.value, ast.Call)
          and isinstance(q.value.value.func, ast.Attribute) and q.value.value.func.attr == 'queue_command'
          and len(q.value.value.args) == 1 and _name(q.value.value.args[0], 'cmd'), "raw_res = yield ...queue_command(cmd)")
@@ -287,7 +302,8 @@ def _gen_onion(repo):
          'From Coq Require Import List NArith.',
          'Import ListNotations.', 'Open Scope N_scope.', '']
     for nm, v in (('ao_prefix_v2', p2), ('ao_prefix_v3', p3), ('ao_new_v2', new_v2), ('ao_new_v3', new_v3),
-                  ('ao_v3_marker', marker), ('ao_key_forbidden', forbidden), ('ao_cmd', cmd),
+                  ('ao_v3_marker', marker), ('ao_key_forbidden', forbidden), ('ao_cmd_forbidden', cmd_forbidden),
+                  ('ao_cmd', cmd),
                   ('ao_port_pre', port_pre), ('ao_port_mid', port_mid),
                   ('ao_flag_detach', flags['detach']), ('ao_flag_discard', flags['discard']),
                   ('ao_flag_auth', flags['auth']), ('ao_flag_single', flags['single']),
